@@ -202,15 +202,22 @@ fn psd_step_case(g: &mut Gen, S: &Mat, Z: &Mat, dS: &Mat, dZ: &Mat, amax: f64, t
         let mut c = vh::PSDTriangleCone::<f64>::new(n);
         let ok = c.update_scaling(&s, &z, 1.0, vh::ScalingStrategy::PrimalDual);
         let (az, as_) = c.step_length(&dz, &ds, &z, &s, &settings(0.8, 1e-4, 0.99), amax);
-        (ok, az, as_)
+        (ok, az, as_, c.verif_R(), c.verif_Rinv(), c.verif_lambda_isqrt().to_vec(), c.verif_lambda().to_vec())
     });
-    let Some((ok, az, as_)) = r else { g.sink.case("psd_step", input, "1%N".into(), &[tag, "panic"]); return; };
+    let Some((ok, az, as_, rr, ri, isq, lam)) = r else { g.sink.case("psd_step", input, "1%N".into(), &[tag, "panic"]); return; };
     if !ok || !az.is_finite() || !as_.is_finite() {
         g.sink.case("psd_step", input, "1%N".into(), &[tag, "nonfinite-or-refused"]);
         return;
     }
-    let coq = format!("(maxl [p_psd_step (-26) {n} {Z} {dZ} {am} {az}; p_psd_step (-26) {n} {S} {dS} {am} {as_}])",
-        n = n, Z = cdymat(Z), dZ = cdymat(dZ), S = cdymat(S), dS = cdymat(dS), am = cdy(amax), az = cdy(az), as_ = cdy(as_));
+    if !rr.iter().chain(ri.iter()).chain(isq.iter()).chain(lam.iter()).all(|v| v.is_finite()) {
+        g.sink.case("psd_step", input, "1%N".into(), &[tag, "nonfinite"]);
+        return;
+    }
+    // hypotheses of C15_psd_step_z / _s: R R^-1 = I, R'ZR = Lambda = R^-1 S R^-T (p_psd_nt), and
+    // gamma = -1/alpha is a lower bound of the spectrum of the scaled direction (p_psd_step_hyp);
+    // conclusion re-checked end to end by p_psd_step
+    let coq = format!("(maxl [p_psd_nt (-30) {n} {r} {ri} {l} {S} {Z}; p_psd_step_hyp (-30) {n} false {r} {isq} {dZ} {az}; p_psd_step_hyp (-30) {n} true {ri} {isq} {dS} {as_}; p_psd_step (-26) {n} {Z} {dZ} {am} {az}; p_psd_step (-26) {n} {S} {dS} {am} {as_}])",
+        r = cdylist(&rr), ri = cdylist(&ri), isq = cdylist(&isq), l = cdylist(&lam), n = n, Z = cdymat(Z), dZ = cdymat(dZ), S = cdymat(S), dS = cdymat(dS), am = cdy(amax), az = cdy(az), as_ = cdy(as_));
     let mut inp = input;
     inp["out"] = json!([az, as_]);
     g.sink.case("psd_step", inp, coq, &[tag]);
@@ -368,6 +375,55 @@ fn shift_case(g: &mut Gen, blks: &[Blk], z: &[f64], primal: bool, tag: &str) {
         m = cdy(m), od = dblocks(blks, &z1));
     g.sink.case("shift", input, coq, &[tag]);
     g.count(&format!("shift/{}", tag));
+}
+
+
+// ------------------------------------------------------------------ PSD margins / unit shift / interior shift
+/// M is the exact symmetric matrix; the cone sees svec(M).  The result matrix is rebuilt from the
+/// ORIGINAL off-diagonal entries (the shifts only touch the diagonal; checked) and the new diagonal.
+fn psd_shift_case(g: &mut Gen, M: &Mat, primal: bool, huge: bool, tag: &str) {
+    let n = M.len();
+    let z = svec(M);
+    let pd = if primal { PrimalOrDualCone::PrimalCone } else { PrimalOrDualCone::DualCone };
+    let op = if huge { "shift_huge_psd" } else { "psd_shift" };
+    let input = json!({"n": n, "M": M, "primal": primal, "huge": huge});
+    let r = guarded(|| {
+        let mut comp = CompositeCone::<f64>::new(&[SupportedConeT::PSDTriangleConeT(n)]);
+        let mut z0 = z.clone();
+        let (ma, mb) = comp.margins(&mut z0, pd);
+        let mut z1 = z.clone();
+        vh::verif_shift_to_cone_interior(&mut z1, &mut comp, pd);
+        let mut z2 = z.clone();
+        comp.scaled_unit_shift(&mut z2, 0.75, pd);
+        (ma, mb, z1, z2)
+    });
+    let Some((ma, mb, z1, z2)) = r else { g.sink.case(op, input, "1%N".into(), &[tag, "panic"]); return; };
+    if !(ma.is_finite() && mb.is_finite() && z1.iter().chain(z2.iter()).all(|v| v.is_finite())) {
+        g.sink.case(op, input, "1%N".into(), &[tag, "nonfinite"]);
+        return;
+    }
+    // off-diagonal packed entries must be untouched by the shift; rebuild the shifted matrix
+    let mut offdiag_same = true;
+    let mut out = M.clone();
+    let mut idx = 0;
+    for c in 0..n { for r in 0..=c { if r == c { out[r][c] = z1[idx]; } else if z1[idx].to_bits() != z[idx].to_bits() { offdiag_same = false; } idx += 1; } }
+    let maxoff = M.iter().enumerate().flat_map(|(i, row)| row.iter().enumerate().filter(move |(j, _)| *j != i).map(|(_, v)| v.abs())).fold(0.0f64, f64::max);
+    let mut inp = input;
+    inp["out"] = json!(z1);
+    if huge {
+        // strictly inside, up to the rounding of the sqrt(2) scaling of the off-diagonal entries
+        let m = 1e-12 * (n as f64) * maxoff;
+        let coq = format!("(maxl [ofb {}; p_psd_strict {} {} {}])", offdiag_same, n, cdymat(&out), cdy(m));
+        g.sink.case(op, inp, coq, &[tag]);
+    } else {
+        let maxabs = M.iter().flat_map(|r| r.iter()).fold(0.0f64, |a, v| a.max(v.abs()));
+        let m = 1.0 - 1e-9 * (1.0 + maxabs).min(1e8);
+        let coq = format!("(maxl [ofb {}; p_psd_margin (-30) {} {} {}; ofb {}; c_psd_unit_shift {} {} (0x3p-2)%float {}; p_psd_strict {} {} {}])",
+            offdiag_same, n, cdymat(M), cdy(ma), mb >= ma.max(0.0) && mb <= (n as f64) * maxabs * (1.0 + 1e-9) + 1e-300,
+            n, cfllist(&z), cfllist(&z2), n, cdymat(&out), cdy(m));
+        g.sink.case(op, inp, coq, &[tag]);
+    }
+    g.count(&format!("{}/{}", op, tag));
 }
 
 /// vectors with one or two components of huge magnitude far outside the cone: the exact check is
@@ -562,6 +618,35 @@ fn generate(g: &mut Gen, thorough: bool) {
             shift_huge_case(g, &blks, &z, (k + mi) % 2 == 0, &tag);
         }
     }
+    // --- PSD margins / unit shift / interior shift (ordinary magnitudes) and huge diagonal entries
+    if blas_shim::AVAILABLE {
+        for k in 0..(if thorough { 60 } else { 20 }) {
+            let n = 1 + k % 5;
+            let mag = *g.rng.pick(&[1.0, 1e-3, 1e3]);
+            let M = match k % 4 {
+                0 => sym_matrix(&mut g.rng, n, 3.0 * mag),                    // indefinite
+                1 => psd_matrix(&mut g.rng, n, 0.3, mag * 20.0),               // comfortably inside
+                2 => mat_scale(&psd_matrix(&mut g.rng, n, 0.01, 1.0), 0.5),    // 0 < margin < target
+                _ => mat_scale(&sym_matrix(&mut g.rng, n, 1.0), 0.0),          // the origin
+            };
+            psd_shift_case(g, &M, k % 2 == 0, false, ["indefinite", "interior", "small-margin", "origin"][k % 4]);
+        }
+        let pmags: &[f64] = if std::env::var("VERIF_HUGE_EXPLORE").is_ok() { &[1e10, 1e13, 1e15, 1e16, 1e17, 1e20, 1e100] } else { &[1e15, 1e16, 1e17, 1e20, 1e100] };
+        for &m in pmags {
+            for k in 0..(if thorough { 6 } else { 3 }) {
+                let n = 2 + k % 3;
+                let mut M = sym_matrix(&mut g.rng, n, 3.0);
+                let fac = 1.0 + g.rng.unit();
+                match k % 3 {
+                    0 => { M[0][0] = -m * fac; }                                            // one huge negative diagonal entry
+                    1 => { for i in 0..n { M[i][i] = -m; } M[0][1] = 5.0; M[1][0] = 5.0; } // all diagonals huge: -m I + small coupling
+                    _ => { let j = n - 1; M[j][j] = -m * fac; M[0][0] = -m * 0.37; }
+                }
+                let tag = format!("huge-1e{}-{}", m.log10().round() as i64, ["one-diag", "all-diag", "two-diag"][k % 3]);
+                psd_shift_case(g, &M, k % 2 == 0, true, &tag);
+            }
+        }
+    }
     // --- margins / shift
     for k in 0..(if thorough { 300 } else { 90 }) {
         let nb = 1 + g.rng.below(4);
@@ -626,6 +711,10 @@ fn replay(g: &mut Gen, v: &Value) {
             }).collect();
             shift_huge_case(g, &blks, &f64_vec(&inp["z"]), inp["primal"].as_bool().unwrap_or(true), "replay")
         }
+        "psd_shift" | "shift_huge_psd" => {
+            let m: Mat = inp["M"].as_array().unwrap().iter().map(|r| f64_vec(r)).collect();
+            psd_shift_case(g, &m, inp["primal"].as_bool().unwrap_or(true), inp["huge"].as_bool().unwrap_or(false), "replay")
+        }
         "psd_step" => {
             let m = |k: &str| -> Mat { inp[k].as_array().unwrap().iter().map(|r| f64_vec(r)).collect() };
             psd_step_case(g, &m("S"), &m("Z"), &m("dS"), &m("dZ"), inp["amax"].as_f64().unwrap(), "replay")
@@ -659,6 +748,9 @@ fn main() {
     }
     // F13 (known finding): absorption in the SOC margin for components beyond 2^53
     shift_huge_case(&mut g, &[Blk::SOC(3)], &[-1e17, 3.0, 4.0], true, "corpus-F13");
+    if blas_shim::AVAILABLE {
+        psd_shift_case(&mut g, &vec![vec![-1e17, 5.0], vec![5.0, -1e17]], true, true, "corpus-F13-psd");
+    }
     if let Some(p) = replay_file {
         let txt = std::fs::read_to_string(&p).expect("cannot read replay file");
         let v: Value = serde_json::from_str(&txt).expect("replay file is not JSON");
